@@ -10,6 +10,7 @@ void harness(void)
     xv_tpcore_havoc();
     struct xcm_socket *s, *parent;
     int rv = xcm_tp_socket_init(s, parent);
-    if (rv == 0) XV_CANARY("initialised");
-    if (rv == -1 && xv_errno == ENOMEM) XV_CANARY("transport's failure and errno reported");
+    (void)rv;
+    if (xv_op_rv == 0) XV_CANARY("initialised");
+    if (xv_op_rv == -1 && xv_op_errno == ENOMEM) XV_CANARY("transport's failure and errno reported");
 }
